@@ -174,40 +174,9 @@ func runC16(c *Ctx) {
 
 	// ---------- R3 ----------
 	// ---------- R8: option bits are only ever added ----------
-	{
-		c.Rule("C16.R8", "EFF", "NetworkRule.enabledOptions is only ever or-ed into: no modifier bit is cleared or overwritten after it was set", 1)
-		ws := fieldWrites(c.P, "rules", "NetworkRule", "enabledOptions")
-		n := 0
-		for _, w := range ws {
-			n++
-			ok := false
-			if bo, isB := w.Val.(*ssa.BinOp); isB && bo.Op == token.OR {
-				for _, side := range []ssa.Value{bo.X, bo.Y} {
-					if ld, isL := side.(*ssa.UnOp); isL && ld.Op == token.MUL {
-						if nn, f, isF := fieldOf(ld.X); isF && f == "enabledOptions" && namedIs(nn, "rules", "NetworkRule") {
-							ok = true
-						}
-					}
-				}
-			}
-			// the one documented way to take a bit back: the negated modifier ~extension (after $document)
-			if bo, isB := w.Val.(*ssa.BinOp); isB && !ok && (bo.Op == token.XOR || bo.Op == token.AND_NOT) {
-				if k, isK := bo.Y.(*ssa.Const); isK && k.Value != nil && k.Int64() == opt["OptionExtension"] {
-					if ld, isL := bo.X.(*ssa.UnOp); isL && ld.Op == token.MUL {
-						if nn, f, isF := fieldOf(ld.X); isF && f == "enabledOptions" && namedIs(nn, "rules", "NetworkRule") {
-							c.OK("C16.R8", shortFn(w.Fn)+": ~extension takes the extension bit back", w.Instr.Pos(), "documented exception: the negated modifier ~extension (not among the modifiers the property ranges over)")
-							continue
-						}
-					}
-				}
-			}
-			c.Check(ok, "C16.R8", shortFn(w.Fn)+": store to enabledOptions is 'enabledOptions | bits'", w.Instr.Pos(), "or-assignment",
-				"a modifier bit can be cleared or overwritten after the options were parsed (e.g. dropping an 'implied' modifier): the exception then disables less than its modifiers say")
-		}
-		if n == 0 {
-			c.Fail("C16.R8", "stores to enabledOptions", token.NoPos, "UNDECIDED: no store to NetworkRule.enabledOptions found")
-		}
-	}
+	c.Rule("C16.R8", "EFF", "NetworkRule.enabledOptions is only ever or-ed into: no modifier bit is cleared or overwritten after it was set", 1)
+	checkOptionWordMonotone(c, "C16.R8", "enabledOptions", opt["OptionExtension"],
+		"a modifier bit can be cleared or overwritten after the options were parsed (e.g. dropping an 'implied' modifier): the exception then disables less than its modifiers say")
 	a.rule = "C16.R3"
 	if lo := a.method("rules", "NetworkRule", "loadOption"); lo != nil {
 		table := map[string][]string{
@@ -526,4 +495,37 @@ func checkOptionSplitter(c *Ctx, rule string) {
 		return
 	}
 	c.Check(bad == "", rule, shortFn(sp)+": consumes the whole option list", sp.Pos(), fmt.Sprintf("%d loop(s), each left only when its condition fails", n), bad)
+}
+
+// checkOptionWordMonotone: every store to the option word NetworkRule.<field> anywhere in the library
+// is 'field | bits'.  extBit: the one documented way to take a bit back (the negated modifier
+// ~extension toggles OptionExtension in enabledOptions); 0 for none.
+func checkOptionWordMonotone(c *Ctx, rule, field string, extBit int64, why string) {
+	ws := fieldWrites(c.P, "rules", "NetworkRule", field)
+	n := 0
+	loadsField := func(v ssa.Value) bool {
+		if ld, isL := v.(*ssa.UnOp); isL && ld.Op == token.MUL {
+			if nn, f, isF := fieldOf(ld.X); isF && f == field && namedIs(nn, "rules", "NetworkRule") {
+				return true
+			}
+		}
+		return false
+	}
+	for _, w := range ws {
+		n++
+		ok := false
+		if bo, isB := w.Val.(*ssa.BinOp); isB && bo.Op == token.OR && (loadsField(bo.X) || loadsField(bo.Y)) {
+			ok = true
+		}
+		if bo, isB := w.Val.(*ssa.BinOp); isB && !ok && extBit != 0 && (bo.Op == token.XOR || bo.Op == token.AND_NOT) && loadsField(bo.X) {
+			if k, isK := bo.Y.(*ssa.Const); isK && k.Value != nil && k.Int64() == extBit {
+				c.OK(rule, shortFn(w.Fn)+": ~extension takes the extension bit back", w.Instr.Pos(), "documented exception: the negated modifier ~extension (not among the modifiers the property ranges over)")
+				continue
+			}
+		}
+		c.Check(ok, rule, shortFn(w.Fn)+": store to "+field+" is '"+field+" | bits'", w.Instr.Pos(), "or-assignment", why)
+	}
+	if n == 0 {
+		c.Fail(rule, "stores to "+field, token.NoPos, "UNDECIDED: no store to NetworkRule."+field+" found")
+	}
 }
